@@ -1027,7 +1027,16 @@ def warping_path_penalty(s1, s2, penalty_post=0, **kwargs):
     :returns DTW distance, the best path, DTW distance between 2 path elements, DTW matrix
     """
     dist, paths = warping_paths(s1, s2, **kwargs)
-    path = best_path(paths)
+    s = DTWSettings(**{k: v for k, v in kwargs.items() if k not in ('psi_neg', 'keep_int_repr')})
+    if not s.adj_penalty:
+        path = best_path(paths)
+    elif kwargs.get('keep_int_repr', False):
+        path = best_path(paths, penalty=s.adj_penalty)
+    else:
+        # The penalty is needed to trace back the path and is only meaningful in the internal
+        # representation of the warping paths matrix (see best_path).
+        _, paths_int = warping_paths(s1, s2, keep_int_repr=True, **kwargs)
+        path = best_path(paths_int, penalty=s.adj_penalty)
 
     path_stepsize = []
     for i in range(1, len(path)):
